@@ -25,6 +25,10 @@ enum Want {
     Timeout,
     /// the listener is contacted and hangs up during TLS / StartTLS setup: an error, promptly
     PeerHangsUp(String),
+    /// the peer answers StartTLS after 2.5 s and then stalls the handshake: with a connection
+    /// timeout of 3 s establishment ends with Timeout at 3 s (the timeout bounds the whole, it does
+    /// not start again for each step)
+    TimeoutAcrossSteps,
 }
 
 #[derive(Clone, Copy, Debug, PartialEq, Eq)]
@@ -244,6 +248,11 @@ fn judge(rep: &Reporter, c: &Case, env: &Env) {
                 bad(format!("expected {} to be contacted and the establishment to fail by itself (not by the timeout)", l));
             }
         }
+        Want::TimeoutAcrossSteps => {
+            if got != Err("Timeout") || secs < 2.7 || secs > 4.6 {
+                bad("expected Timeout about 3 s after the start, although the StartTLS answer came at 2.5 s".to_string());
+            }
+        }
         Want::Timeout => {
             let t = c.timeout_ms.unwrap() as f64 / 1000.0;
             if got != Err("Timeout") || secs < t * 0.9 || secs > t + 8.0 {
@@ -265,6 +274,7 @@ fn want_kind(w: &Want) -> &'static str {
         Want::ConnectError => "unreachable",
         Want::Timeout => "timeout",
         Want::PeerHangsUp(_) => "peer-hangs-up",
+        Want::TimeoutAcrossSteps => "timeout-across-steps",
     }
 }
 
@@ -308,6 +318,7 @@ fn run_shard(rep: &Reporter, tier: Tier, shard: usize, nshards: usize) -> ShardO
     // by side draw their listeners from), verified by a refused connection
     let closer_port = reg.tcp("127.0.0.1:0", "tcp:closer", Mode::CloseAtOnce).expect("closer listener");
     let rtc_port = reg.tcp("127.0.0.1:0", "tcp:read-then-close", Mode::ReadThenClose).expect("read-then-close listener");
+    let slow_port = reg.tcp("127.0.0.1:0", "tcp:slow-then-silent", Mode::SlowAnswerThenSilent).expect("slow listener");
     let closed_port = (0..2000u16)
         .map(|k| 20011 + (shard as u16) * 2003 + k)
         .find(|p| {
@@ -325,6 +336,14 @@ fn run_shard(rep: &Reporter, tier: Tier, shard: usize, nshards: usize) -> ShardO
     let sock_plain = format!("{}/ldapi.sock", dir);
     let sock_space = format!("{}/ld api.sock", dir);
     let sock_colon = format!("{}/slapd:389.sock", dir);
+    // a socket deep down a directory tree: its percent-encoded path is longer than sun_path, the
+    // decoded one is not; and a path of the maximum length
+    let deep_dir = format!("{}/{}", dir, (0..22).map(|k| ((b'a' + k as u8) as char).to_string()).collect::<Vec<_>>().join("/"));
+    let _ = std::fs::create_dir_all(&deep_dir);
+    let sock_deep = format!("{}/s.sock", deep_dir);
+    let sock_max = format!("{}/{}", dir, "m".repeat(107usize.saturating_sub(dir.len() + 1)));
+    let u_deep = sock_deep.len() <= 107 && reg.unix(&sock_deep, "unix:deep", Mode::Responder);
+    let u_max = sock_max.len() == 107 && reg.unix(&sock_max, "unix:max", Mode::Responder);
     let u1 = reg.unix(&sock_plain, "unix:plain", Mode::Responder);
     let u2 = reg.unix(&sock_space, "unix:space", Mode::Responder);
     let u3 = reg.unix(&sock_colon, "unix:colon", Mode::Responder);
@@ -447,6 +466,9 @@ fn run_shard(rep: &Reporter, tier: Tier, shard: usize, nshards: usize) -> ShardO
         (pct_path(&sock_colon, true), Want::OkAt("unix:colon".into())),
         (pct_path(&sock_colon, false), Want::OkAt("unix:colon".into())),
         (pct_path(&format!("{}/nonexistent.sock", dir), true), Want::ConnectError),
+        (pct_path(&sock_deep, true), if u_deep { Want::OkAt("unix:deep".into()) } else { Want::ConnectError }),
+        (pct_path(&sock_deep, false), if u_deep { Want::OkAt("unix:deep".into()) } else { Want::ConnectError }),
+        (pct_path(&sock_max, true), if u_max { Want::OkAt("unix:max".into()) } else { Want::ConnectError }),
         // percent-escapes that do not decode to UTF-8: no such socket, never a panic
         (format!("{}%2Fsock%FF%FE", pct_path(&dir, true)), Want::ConnectError),
         (format!("{}%2f%c3%28", pct_path(&dir, false)), Want::ConnectError),
@@ -519,6 +541,10 @@ fn run_shard(rep: &Reporter, tier: Tier, shard: usize, nshards: usize) -> ShardO
                 }
             }
         }
+    }
+    // a peer that is slow in one step and stalls in the next
+    for sync_api in [false, true] {
+        cases.push(Case { url: format!("ldap://127.0.0.1:{}/", slow_port), starttls: true, pre: Pre::None, timeout_ms: Some(3000), sync_api, want: Want::TimeoutAcrossSteps, api: 0 });
     }
     // the same over a pre-opened TCP stream whose peer stays silent: the timeout bounds the
     // StartTLS exchange / TLS handshake there as well
